@@ -5,6 +5,9 @@ from the events of Model/Pipeline.lean; after every op the model is run to quies
   pipeline <cfg> <op>*      cfg = [MaxPendingRequests]      op = [code, n]
     N      a new caller runs Do            (callDo, [doPop, (blocked sender slips in), doRetry])
     L      a new caller runs DoDeadline    (callDeadline)
+    B      a new caller runs DoDeadline with a request body stream that the harness holds back: once the writer has
+           passed its deadline check (writerBegin) it blocks inside `w.req.Write` until   G w   releases the body of
+           call w (writerWrite, whatever happened to the deadline meanwhile)
     E w…   virtual time passes the deadlines of the calls w…   (timerFired w, deadlinePassed w, [returnTimeout w])
     P      the server answers the oldest outstanding request on the live connection   (readerOk)
     X      the server closes the connection (the reader fails as soon as it waits for a response)
@@ -27,6 +30,7 @@ structure PlD where
   dead : Bool                  -- the server closed the live connection
   seen : List Nat
   rets : List (Nat × String)
+  gated : List Nat := []       -- calls whose request body stream is still held back by the harness
   rdTO : List Nat := []        -- items whose read failed with ErrTimeout (PipelineClient.ReadTimeout): class "timeout"
 
 def plClass : Res → String
@@ -58,7 +62,9 @@ def plSettleOnce (d : PlD) : Option (Option PlD) :=
         | some ⟨_, _, _, some r, _, _⟩ => { d1 with rets := d1.rets ++ [(w, if d.rdTO.contains w then "timeout" else plClass r)] }
         | _ => d1)
   | none =>
-  -- 3. writer
+  -- 3. a reader waiting on chR gets a pushed item at once (direct hand-off: len(chR) never counts it)
+  if s.reader == .idle && !s.chR.isEmpty then (plStep d .readerTake).map some else
+  -- 4. writer
   match s.writer with
   | .idle =>
     if !s.chW.isEmpty then (plStep d .writerTake).map some
@@ -75,8 +81,16 @@ def plSettleOnce (d : PlD) : Option (Option PlD) :=
       | .exited => some none
   | .took w =>
     match s.works[w]? with
-    | some x => if x.deadline && x.expired then (plStep d .writerExpire).map some else (plStep d .writerWrite).map some
+    | some x => if x.deadline && x.expired then (plStep d .writerExpire).map some else (plStep d .writerBegin).map some
     | none => none
+  | .writing w =>
+    -- `w.req.Write(bw)`: a request whose body stream is gated by the harness stays here until the gate opens
+    if !d.gated.contains w then (plStep d .writerWrite).map some
+    else
+      match s.reader with
+      | .idle => if !s.chR.isEmpty then (plStep d .readerTake).map some else some none
+      | .reading _ => if d.dead then (plStep d .readerFail).map some else some none
+      | .exited => some none
   | .push _ =>
     if s.chR.length < s.max then (plStep d .writerPush).map some
     else if s.armed then (plStep d .writerFlush).map some
@@ -110,6 +124,8 @@ def plExpire (d : PlD) (n : Nat) : Option PlD :=
 def plOp (d : PlD) (code : Char) (ns : List Nat) : Option PlD :=
   match code with
   | 'L' => plStep d .callDeadline
+  | 'B' => (plStep d .callDeadline).map fun d1 => { d1 with gated := d1.gated ++ [d.s.works.length] }
+  | 'G' => some { d with gated := d.gated.filter (fun w => !ns.contains w) }
   | 'N' =>
     let w := d.s.works.length
     (plStep d .callDo).bind fun d1 =>
@@ -136,7 +152,7 @@ def plOp (d : PlD) (code : Char) (ns : List Nat) : Option PlD :=
     -- the reader's ReadTimeout expires before the first byte of the response: `w.resp.Read` fails with ErrTimeout,
     -- the reader returns, the worker drops the connection (readerFail) and pauses 1s before it dials again
     match d.s.reader with
-    | .reading w => (plStep d .readerFail).map fun d1 => { d1 with rdTO := d1.rdTO ++ [w] }
+    | .reading w => (plStep d .readerFail).map fun d1 => { d1 with rdTO := d1.rdTO ++ [w], dead := true }
     | _ => none
   | 'W' => some d
   | _ => none
@@ -162,7 +178,7 @@ def opsPipeline (op : String) (a : List Bytes) : Option String :=
     | [m] :: ops =>
       -- no connection yet: the worker is about to dial (reachable from init by writerIdleExit, readerStop)
       (run (init m.toNat) [.writerIdleExit, .readerStop]).bind fun s0 =>
-        (plRun ⟨s0, false, [], [], []⟩ ops []).map (";".intercalate ·)
+        (plRun { s := s0, dead := false, seen := [], rets := [] } ops []).map (";".intercalate ·)
     | _ => none
   | _ => none
 
